@@ -85,7 +85,14 @@ class Check(c01.Check):
                 outcls[str(i)] = rng.choice(['Out', 'Out', 'ReplaceOut', 'OffsetOut', 'XOut', 'LocalOut'])
                 if outcls[str(i)] == 'OffsetOut' and inbus[str(i)][2] == 'kr':
                     outcls[str(i)] = 'Out'
-        res, err = common.run_impl('c01', 'desc_probe', {'sigs': sigs, 'bus': bus, 'inbus': inbus, 'outcls': outcls}, timeout=900)
+        # lag times for some control-rate parameters (the group becomes a LagControl; layout and names unchanged)
+        lags = {}
+        for i, sig in enumerate(sigs):
+            if len(sig) <= 12 and rng.random() < 0.35:
+                l = [(rng.choice([0.1, 0.5, 2]) if (rate in (None, 'kr') and rng.random() < 0.6) else None) for _, rate, _ in sig]
+                if any(x is not None for x in l):
+                    lags[str(i)] = l
+        res, err = common.run_impl('c01', 'desc_probe', {'sigs': sigs, 'bus': bus, 'inbus': inbus, 'outcls': outcls, 'lags': lags}, timeout=900)
         if res is None:
             self.notes.append('desc probe failed: ' + err[-300:])
             return []
